@@ -1114,8 +1114,8 @@ impl Interp {
                 RV::Int(i) => Ok(RV::Float(*i as f64)),
                 RV::Bool(b) => Ok(RV::Float(if *b { 1.0 } else { 0.0 })),
                 RV::Str(s) => match classify_number(&s.borrow()) {
-                    NumText::Int(v) => Ok(RV::Float(v as f64)),
-                    NumText::Decimal(f) => Ok(RV::Float(f)),
+                    // the value of the decimal text (keeps the sign of "-0")
+                    NumText::Int(_) | NumText::Decimal(_) => Ok(RV::Float(s.borrow().trim().parse::<f64>().unwrap_or(f64::NAN))),
                     NumText::Unclear => unspec("4.3(12): float of text that is numeric but not canonical decimal"),
                     NumText::NonNumeric => err(ErrKind::Argument),
                 },
